@@ -79,7 +79,7 @@ func buildOnePassDFA(re *syntax.Regexp, nfaEngine *nfa.NFA, config Config) *onep
 		UTF8:              true,
 		Anchored:          true,
 		DotNewline:        false,
-		MaxRecursionDepth: config.MaxRecursionDepth,
+		MaxRecursionDepth: config.nfaRecursionDepth(),
 	})
 	anchoredNFA, err := anchoredCompiler.CompileRegexp(re)
 	if err != nil {
@@ -407,7 +407,7 @@ func buildDotOptimizedNFAs(
 			Anchored:          false,
 			DotNewline:        false,
 			ASCIIOnly:         true,
-			MaxRecursionDepth: config.MaxRecursionDepth,
+			MaxRecursionDepth: config.nfaRecursionDepth(),
 		})
 		var err error
 		asciiNFAEngine, err = asciiCompiler.CompileRegexp(re)
@@ -426,7 +426,7 @@ func buildDotOptimizedNFAs(
 		Anchored:          false,
 		DotNewline:        false,
 		UseRuneStates:     true,
-		MaxRecursionDepth: config.MaxRecursionDepth,
+		MaxRecursionDepth: config.nfaRecursionDepth(),
 	})
 	runeNFAEngine, err := runeCompiler.CompileRegexp(re)
 	if err != nil {
@@ -450,7 +450,7 @@ func CompileRegexp(re *syntax.Regexp, config Config) (*Engine, error) {
 		UTF8:              true,
 		Anchored:          false,
 		DotNewline:        false,
-		MaxRecursionDepth: config.MaxRecursionDepth,
+		MaxRecursionDepth: config.nfaRecursionDepth(),
 	})
 
 	nfaEngine, err := compiler.CompileRegexp(re)
